@@ -23,7 +23,10 @@ LEVEL_TEXT = ("PARTIAL. Proved for every ciphertext, positive chunk size and eve
 LEVEL_NOTE = ("Lean kernel + standard axioms; encoder abstract (C01/C36 are about the real one); hand-written model; the harness shrinks "
               "CHKCiphertextFetcher.CHUNK_SIZE for most scenarios so that small files have many interruption points (one scenario per "
               "run uses the real 50 KiB).")
-RULE = ("seeded scenarios: k/N/servers/segment size/file size x chunk size x a list of 0..3 disturbed attempts (error on the i-th "
+RULE = ("a fixed corpus first (a 217145-byte file, production 50 KiB chunk sizes on helper and client side, helper upload cut "
+        "after every chunk 0..last and after the complete fetch, by error / disconnect / helper restart, a resume of a resume, and a "
+        "7-chunk variant with both chunk sizes 1000), each resumed and compared with the direct upload (caps, shares, downloaded "
+        "plaintext); then seeded scenarios: k/N/servers/segment size/file size x chunk size x a list of 0..3 disturbed attempts (error on the i-th "
         "read_encrypted, error after the fetch, disconnect at the i-th read, helper restart between attempts) then a clean attempt, "
         "then the same file again (already present), then again after deleting shares; plus pre-existing-copy scenarios on twin "
         "grids (helper vs direct upload onto a healthy copy / a copy lacking shares / a copy whose share numbers are duplicated "
@@ -33,7 +36,8 @@ RULE = ("seeded scenarios: k/N/servers/segment size/file size x chunk size x a l
 TRUSTED = ["harness/grid.py (LocalWrapper standing in for foolscap references; fault hook)",
            "the HelperProxy in harness/props/c44.py that wraps the returned CHKUploadHelper like foolscap would",
            "AES-CTR from `cryptography` as reference for the ciphertext"]
-ASSUMPTIONS = ["shrinking CHUNK_SIZE changes only the number of read_encrypted calls (it is used nowhere else)",
+ASSUMPTIONS = ["shrinking CHKCiphertextFetcher.CHUNK_SIZE and EncryptAnUploadable.CHUNKSIZE changes only the number of reads (the fixed "
+               "corpus runs with the production values)",
                "share data read through ShareFile.read_share_data is the grid state (leases ignored)"]
 
 
@@ -64,18 +68,65 @@ def gen_scenario(rng, big=False):
     s.delete = rng.choice(["one", "some", "all"])
     s.policy = rng.choice(["random", "random", "fifo", "lifo"])
     s.seed = rng.randrange(1 << 30)
+    # the client reads (and, when the helper resumes, skips) its plaintext in pieces of EncryptAnUploadable.CHUNKSIZE
+    # (50 KiB in production = the helper's chunk size): shrink it along, so that a resume offset spans several client reads
+    s.enc_chunk = None if big else rng.choice([None, s.chunk, s.chunk, max(1, s.chunk // 2), s.chunk * 2, 13, 64])
     return s
+
+
+def corpus():
+    """Fixed corpus, run first: one multi-chunk file with the production chunk sizes (50 KiB on both sides), the helper
+    upload cut after every chunk 0,1,…,last (and after the complete fetch), by error / disconnect / helper restart, then resumed."""
+    res = []
+    size, chunk = 217145, 51200
+    nreads = -(-size // chunk)
+    cuts = [("r", i, "keep") for i in range(nreads + 1)] + [("e", 0, "keep"), ("d", 2, "keep"), ("r", 3, "restart"),
+                                                            ("d", nreads - 1, "restart")]
+    for j, cut in enumerate(cuts):
+        s = Scenario()
+        s.k, s.n, s.num_servers, s.maxseg = 2, 3, 3, 131072
+        s.size, s.chunk, s.enc_chunk = size, chunk, None
+        s.faults = [list(cut)]
+        s.delete, s.policy, s.seed = "one", "fifo", 4400 + j
+        s.corpus = True
+        res.append(s)
+    # two interruptions in a row (resume of a resume), and a smaller honest variant: both chunk sizes 1000, 7 chunks
+    s = Scenario()
+    s.k, s.n, s.num_servers, s.maxseg = 2, 3, 3, 131072
+    s.size, s.chunk, s.enc_chunk = size, chunk, None
+    s.faults = [["r", 2, "keep"], ["r", 1, "restart"]]
+    s.delete, s.policy, s.seed, s.corpus = "one", "random", 4490, True
+    res.append(s)
+    for i in range(8):
+        s = Scenario()
+        s.k, s.n, s.num_servers, s.maxseg = 3, 4, 4, 1024
+        s.size, s.chunk, s.enc_chunk = 6500, 1000, 1000
+        s.faults = [["r", i, "keep"]]
+        s.delete, s.policy, s.seed, s.corpus = "some", "random", 4500 + i, True
+        res.append(s)
+    return res
 
 
 def scenario_dict(s):
     return dict(k=s.k, n=s.n, num_servers=s.num_servers, maxseg=s.maxseg, size=s.size, chunk=s.chunk,
+                enc_chunk=getattr(s, "enc_chunk", None),
                 faults=[list(f) for f in s.faults], delete=s.delete, policy=s.policy, seed=s.seed)
 
 
 def scenario_from(d):
     s = Scenario()
     s.__dict__.update({k: d[k] for k in ("k", "n", "num_servers", "maxseg", "size", "chunk", "faults", "delete", "policy", "seed")})
+    s.enc_chunk = d.get("enc_chunk")
     return s
+
+
+def short_used(out):
+    """long ciphertexts are compared by digest (keeps replay files small)"""
+    import hashlib
+    head, sep, used = out.partition(" used=")
+    if sep and len(used) > 4000:
+        used = "sha256:" + hashlib.sha256(used.encode()).hexdigest()
+    return head + sep + used
 
 
 def share_data(path):
@@ -128,6 +179,7 @@ def run_scenario(ctx, s):
             return d.addCallback(_wrap)
 
     saved_chunk = offloaded.CHKCiphertextFetcher.CHUNK_SIZE
+    saved_enc_chunk = upload.EncryptAnUploadable.CHUNKSIZE
     orig_start = offloaded.LocalCiphertextReader.start
     used_ct = []
 
@@ -166,7 +218,9 @@ def run_scenario(ctx, s):
             ct = enc.update(data) + enc.finalize()
             inc_path = os.path.join(hdir, "CHK_incoming", si_b2a(si).decode())
             enc_path = os.path.join(hdir, "CHK_encoding", si_b2a(si).decode())
-            # ---- attempts through the helper
+            # ---- attempts through the helper (the direct reference above ran with the production client-side chunking)
+            if getattr(s, "enc_chunk", None):
+                upload.EncryptAnUploadable.CHUNKSIZE = s.enc_chunk
             attach(True)
             trace, model_faults, fired_any = [], [], False
             result = None
@@ -209,10 +263,8 @@ def run_scenario(ctx, s):
                 if after == "restart" or up._helper is None:
                     attach(after == "restart")
             case["trace"] = trace
-            line = "fetch %d %s %s" % (s.chunk, ct.hex() if len(ct) <= 2000 else ct[:2000].hex(), ",".join(model_faults))
-            if len(ct) > 2000:
-                line = None      # the big scenario is monitored only
-            want = ";".join(trace) + " used=" + (used_ct[-1].hex() if used_ct else "none")
+            line = "fetch %d %s %s" % (s.chunk, ct.hex(), ",".join(model_faults))
+            want = short_used(";".join(trace) + " used=" + (used_ct[-1].hex() if used_ct else "none"))
             # ---- monitor (from the statement)
             if result is None:
                 ctx.violation("the resumed, undisturbed helper upload failed", case, "resumed-upload-failed")
@@ -233,6 +285,20 @@ def run_scenario(ctx, s):
                     ctx.violation("shares produced through the helper%s differ from the direct upload's (shnums %s)" % (
                         " after a resumed transfer" if fired_any else "", bad), dict(case, shnums=bad),
                         "helper-shares-differ:%s" % ("resumed" if fired_any else "uninterrupted"))
+                try:
+                    from allmydata.util.consumer import MemoryConsumer
+                    node = c.create_node_from_uri(result.get_uri())
+                    mc = rt.wait(node.read(MemoryConsumer(), 0, s.size))
+                    back = b"".join(mc.chunks)
+                except Exception as e:
+                    back = "download failed: %s" % type(e).__name__
+                if back != data:
+                    firstbad = next((i for i in range(min(len(back), len(data))) if back[i] != data[i]), min(len(back), len(data))) \
+                        if isinstance(back, bytes) else None
+                    ctx.violation("downloading the cap returned by the helper-assisted upload%s does not give the file back (%s)" % (
+                        " after a resumed transfer" if fired_any else "",
+                        "first wrong byte at offset %s" % firstbad if firstbad is not None else back), dict(case, first_wrong_offset=firstbad),
+                        "helper-upload-download-differs:%s" % ("resumed" if fired_any else "uninterrupted"))
                 if used_ct and used_ct[-1] != ct:
                     ctx.violation("the ciphertext file the helper encoded from differs from the ciphertext", case, "helper-ciphertext-differs")
                 if file_len(inc_path) is not None or file_len(enc_path) is not None:
@@ -299,6 +365,7 @@ def run_scenario(ctx, s):
             return case, line, want
         finally:
             offloaded.CHKCiphertextFetcher.CHUNK_SIZE = saved_chunk
+            upload.EncryptAnUploadable.CHUNKSIZE = saved_enc_chunk
             offloaded.LocalCiphertextReader.start = orig_start
             g.close()
             g2.close()
@@ -506,8 +573,23 @@ def run(ctx):
     else:
         prng = ctx.subrng("pre")
         pre = [gen_pre(prng) for _ in range(ctx.budget(80, 1500))]
-        scen = [gen_scenario(ctx.rng) for _ in range(ctx.budget(130, 3000))]
+        scen = [gen_scenario(ctx.rng) for _ in range(ctx.budget(110, 3000))]
         scen.append(gen_scenario(ctx.rng, big=True))
+    lines, wants, cases = [], [], []
+
+    def run_main(lst):
+        for s in lst:
+            if len(ctx.violations) >= 50:
+                break          # the report is capped at 50
+            case, line, want = run_scenario(ctx, s)
+            if line:
+                lines.append(line)
+                wants.append(want)
+                cases.append(dict(case, line=line if len(line) < 600 else line[:600] + "…"))
+                if getattr(s, "corpus", False):
+                    ctx.count("corpus-scenarios")
+    if not ctx.replay:
+        run_main(corpus())       # fixed corpus first: every cut point of a multi-chunk file, production chunk sizes
     ql, qw, qc = [], [], []
     for s in pre:
         if len(ctx.violations) >= 50:
@@ -518,17 +600,10 @@ def run(ctx):
         qc.append(case)
     ctx.compare("already-present decision on a pre-existing copy (get_buckets answers as (server, share number) pairs)",
                 qc, qw, ctx.model(ql))
-    lines, wants, cases = [], [], []
-    for s in scen:
-        if len(ctx.violations) >= 50:
-            break          # the report is capped at 50
-        case, line, want = run_scenario(ctx, s)
-        if line:
-            lines.append(line)
-            wants.append(want)
-            cases.append(dict(case, line=line if len(line) < 600 else line[:600] + "…"))
+    run_main(scen)
+    outs = ctx.model(lines)
     ctx.compare("helper ciphertext fetch: incoming/encoding file sizes after every attempt and the ciphertext handed to the encoder",
-                cases, wants, ctx.model(lines))
+                cases, wants, None if outs is None else [short_used(o) for o in outs])
     pl, pw, pc = [], [], []
     for (a, b, c) in getattr(ctx, "_c44_present", []):
         pl += a
